@@ -41,6 +41,13 @@ type c15Scen struct {
 	MWKind     int       `json:"middleware_kind,omitempty"`  // 0 passes w and r through, 1 wraps the writer, 2 derives a request (WithContext), 3 both
 	NoProduces bool      `json:"route_declares_no_produces"` // with an Accept no writer serves, entity calls answer 406
 	DefaultCT  string    `json:"default_response_content_type,omitempty"`
+	// Prior: so many other requests (a handler that writes an entity and a few hundred bytes) are answered
+	// by the same container first: whatever the container keeps between requests starts out used
+	Prior int `json:"requests_answered_by_the_container_before,omitempty"`
+	// Swap: a container filter puts a byte-counting wrapper into Response.ResponseWriter for the rest of the
+	// chain and takes it out again afterwards (what logging and ETag filters do): the writer the Response
+	// writes to is then that wrapper
+	Swap bool `json:"filter_swaps_the_writer_inside_the_response,omitempty"`
 }
 
 var c15First = []string{"none", "WriteHeader", "WriteEntity", "WriteHeaderAndEntity", "WriteAsJson", "WriteAsXml", "WriteJson", "WriteHeaderAndJson", "WriteHeaderAndXml", "WriteError", "WriteErrorString", "WriteServiceError"}
@@ -86,6 +93,10 @@ func genC15(x *Ctx) *c15Scen {
 			sc.DefaultCT = []string{"application/json", "application/xml"}[tp.G(2)]
 		}
 	}
+	sc.Swap = tp.Chance(150)
+	if tp.Chance(30) {
+		sc.Prior = []int{3, 17, 40, 130}[tp.G(4)]
+	}
 	return sc
 }
 
@@ -104,6 +115,18 @@ type c15Obs struct {
 	w         *sim.SimWriter
 	escaped   interface{}
 	ran       bool
+	swapN     int // bytes accepted through the wrapper the swapping filter installed
+}
+
+type c15CountWriter struct {
+	http.ResponseWriter
+	n int
+}
+
+func (c *c15CountWriter) Write(p []byte) (int, error) {
+	n, err := c.ResponseWriter.Write(p)
+	c.n += n
+	return n, err
 }
 
 func c15EntityFor(n int) *c15Entity {
@@ -124,6 +147,16 @@ func c15Exec(sc *c15Scen, mode, failAt int) *c15Obs {
 		chain.ProcessFilter(req, resp)
 		obs.status, obs.length = resp.StatusCode(), resp.ContentLength()
 	})
+	if sc.Swap {
+		c.Filter(func(req *restful.Request, resp *restful.Response, chain *restful.FilterChain) {
+			orig := resp.ResponseWriter
+			cw := &c15CountWriter{ResponseWriter: orig}
+			resp.ResponseWriter = cw
+			chain.ProcessFilter(req, resp)
+			resp.ResponseWriter = orig
+			obs.swapN = cw.n
+		})
+	}
 	if sc.Middleware {
 		// the documented adapter for net/http middlewares; a pass-through one
 		c.Filter(restful.HttpMiddlewareHandlerToFilter(func(next http.Handler) http.Handler {
@@ -187,7 +220,21 @@ func c15Exec(sc *c15Scen, mode, failAt int) *c15Obs {
 		}
 		obs.hStatus, obs.hLength = resp.StatusCode(), resp.ContentLength()
 	}))
+	ws.Route(ws.GET("/p/{n}").To(func(req *restful.Request, resp *restful.Response) {
+		resp.WriteHeaderAndEntity(203, c15EntityFor(60))
+		resp.Write(sim.PayloadBytes("prior", 150+len(req.PathParameter("n"))))
+	}))
 	c.Add(ws)
+	for i := 0; i < sc.Prior; i++ {
+		pw := sim.NewSimWriter(sim.Cur())
+		pw.Quiet = true
+		ph := map[string]string{}
+		if sc.Coding != "" && i%2 == 0 {
+			ph["Accept-Encoding"] = sc.Coding
+		}
+		Serve(c, i%2, pw, NewReq("GET", fmt.Sprintf("/b/p/%d", i), ph, nil, 0, 1))
+	}
+	obs.status, obs.length, obs.swapN = 0, 0, 0
 	obs.w = sim.NewSimWriter(sim.Cur())
 	obs.w.Quiet = true
 	obs.w.FaultMode, obs.w.FailAt, obs.w.ShortN = mode, failAt, sc.ShortN
@@ -259,6 +306,9 @@ func runC15(x *Ctx) {
 		}
 		if o.status != o.hStatus || o.length != o.hLength {
 			x.Violate("filter-sees-other-values", "%s: the handler reads status %d length %d, the trailing filter %d and %d", what, o.hStatus, o.hLength, o.status, o.length)
+		}
+		if sc.Swap && (sc.Coding == "" || v.mode == sim.WFaultNone) && o.swapN != o.length {
+			x.Violate("length-bookkeeping", "%s: ContentLength() is %d, but the writer a filter had put into Response.ResponseWriter for the rest of the chain accepted %d bytes (the others went around it)", what, o.length, o.swapN)
 		}
 		if sc.Coding == "" {
 			if o.length != len(o.w.Body) {
